@@ -94,6 +94,11 @@ package db
 // or its publication was attempted and failed (the documented fall-back to skipped-sequence handling).
 //@ func sequenceAllocator.releaseUnusedSequences
 //@   requires s != nil && allocInv(s)
+// lock discipline (the engine's sequential reading assumes lock-protected state stable only WHILE the lock is held): the
+// allocator's mutex is released only when the batch has no unpublished remainder, i.e. never between taking the remainder
+// [last+1..max] and recording it as given back (a nextSequence() in that window would hand out a number being published as unused)
+//@   also C05: unlock-only-when-drained
+//@   before[unlock-only-when-drained] call Unlock s.last == s.max
 //@   modifies published, publishFailed, releaseAttempted, s.last, s.sequenceBatchSize
 //@   ensures[inv]       allocInv(s)
 //@   ensures[drained]   s.last == s.max && s.max == old(s.max)
